@@ -18,7 +18,7 @@
 (* layout per signature), "lb"/"li" list of bool / of integers, "t" the     *)
 (* tuple argument                                                           *)
 (***************************************************************************)
-EXTENDS Integers, Sequences, FiniteSets, TLC, Json
+EXTENDS AstLib, FiniteSets, TLC, Json
 
 CONSTANTS MaxTok,       \* bound on tokens (expression + statement actions)
           MaxStack,     \* bound on expression stack depth
@@ -29,12 +29,6 @@ CONSTANTS MaxTok,       \* bound on tokens (expression + statement actions)
 VARIABLES stack, frames, scope, ntok, nst, done
 
 vars == <<stack, frames, scope, ntok, nst, done>>
-
-TBool == [t |-> "bool"]
-TInt(w) == [t |-> "int", w |-> w]
-TFix(i, f) == [t |-> "fixed", i |-> i, f |-> f, w |-> i + f]
-TTup(ts) == [t |-> "tuple", elts |-> ts]
-TList(T, n) == [t |-> "tuple", elts |-> [j \in 1..n |-> T]]
 
 \* signature: sequence of [name, tdesc, kind]; ints of mixed widths on purpose
 Sig ==
@@ -49,25 +43,8 @@ Sig ==
 FixI == 2
 FixF == 2
 
-\* ---- ast constructors (PySem vocabulary)
-Name(id) == [T |-> "Name", id |-> id]
-CI(v) == [T |-> "Constant", value |-> [T |-> "int", v |-> v]]
-CB(b) == [T |-> "Constant", value |-> [T |-> "bool", v |-> b]]
-CF(num, den) == [T |-> "Constant", value |-> [T |-> "float", num |-> num, den |-> den]]
-Bin(op, l, r) == [T |-> "BinOp", left |-> l, op |-> [T |-> op], right |-> r]
-Cmp(op, l, r) == [T |-> "Compare", left |-> l, ops |-> <<[T |-> op]>>, comparators |-> <<r>>]
-BoolOpN(op, vs) == [T |-> "BoolOp", op |-> [T |-> op], values |-> vs]
-Un(op, x) == [T |-> "UnaryOp", op |-> [T |-> op], operand |-> x]
-IfE(c, a, b) == [T |-> "IfExp", test |-> c, body |-> a, orelse |-> b]
-Sub(v, i) == [T |-> "Subscript", value |-> v, slice |-> i]
-Call1(f, x) == [T |-> "Call", func |-> Name(f), args |-> <<x>>, keywords |-> <<>>]
-Call2(f, x, y) == [T |-> "Call", func |-> Name(f), args |-> <<x, y>>, keywords |-> <<>>]
 CastFix(num, den) == [T |-> "Call", func |-> Name("Qfixed" \o ToString(FixI) \o "_" \o ToString(FixF)),
                       args |-> <<CF(num, den)>>, keywords |-> <<>>, cast |-> TFix(FixI, FixF)]
-Assign(n, e) == [T |-> "Assign", targets |-> <<Name(n)>>, value |-> e]
-Aug(n, op, e) == [T |-> "AugAssign", target |-> Name(n), op |-> [T |-> op], value |-> e]
-Ret(e) == [T |-> "Return", value |-> e]
-
 E(n, k, hv) == [n |-> n, k |-> k, hv |-> hv]      \* stack entry: node, kind, mentions a variable
 Top(j) == stack[Len(stack) - j]
 Drop(j) == SubSeq(stack, 1, Len(stack) - j)
